@@ -579,6 +579,15 @@ def weave_fn(src, container, name, nth, opts, subs, mode, sig_only=False):
     rewrites = {}
     if getattr(src, 'macro', None):
         rewrites['R13'] = 1
+    if container.startswith('impl') and ' for ' in container and not sig_only:
+        # a TRAIT impl block under contract: the number of functions it defines is locked.  A new override of a provided trait method
+        # (`fn nth` next to `fn next`) would run instead of the default the contracts assume, and no obligation would be generated for it
+        nfn = 0
+        for (o_, c_) in src.containers(container):
+            for s_, e_ in src.finditer_code(r'(?<![A-Za-z0-9_])fn\s+[A-Za-z0-9_]+', o_ + 1, c_):
+                if src.depth_at(s_, o_ + 1) == 0:
+                    nfn += 1
+        check_anchor('%s:%s|impl-fns' % (os.path.relpath(src.path, getattr(src, 'root', os.path.dirname(src.path))), container), nfn)
     text, k = rw_get_unchecked(raw)
     if k:
         rewrites['R2'] = k
